@@ -60,4 +60,192 @@ GuardsBeforeLife(ev) ==
     \A i, j \in 1 .. Len(ev) :
         Base(ev[i][2]) \in GuardMethods /\ Base(ev[j][2]) \in LifeMethods => i < j
 
+\* all rounds of the step vetoed (or without effect), nothing scheduled: nothing may have changed
+FullyVetoed(m) ==
+    /\ \E i \in 1 .. Len(m.rounds) : m.rounds[i][1] = "vetoed"
+    /\ \A i \in 1 .. Len(m.rounds) : m.rounds[i][1] # "approved"
+    /\ \A i \in 1 .. Len(m.rounds) : \A j \in 1 .. Len(m.rounds[i][2]) : m.rounds[i][2][j][3] # "schedule"
+
+
+---------------------------------------------------------------------------
+(* C12 / C02 : which sub-state a region picks, stated top-down.            *)
+(* e = [sel, rank, util, r] : what select() / rank() / utility() return    *)
+(* and the (single) generator output used for every draw of the step.      *)
+
+HeadUtil(e, s) == IF HasUser(s) THEN e.util[s] ELSE ROne
+HeadRank(e, s) == IF HasUser(s) THEN e.rank[s] ELSE 0
+HeadSel(e, s)  == IF HasUser(s) THEN e.sel[s]  ELSE 1
+
+\* leftmost maximum
+ArgMaxLeft(us) == CHOOSE i \in 1 .. Len(us) :
+                     /\ \A j \in 1 .. Len(us) : RGe(us[i], us[j])
+                     /\ \A j \in 1 .. i - 1 : ~RGe(us[j], us[i])
+
+RSum(us) == LET RECURSIVE S(_)
+                S(i) == IF i > Len(us) THEN RZero ELSE RAdd(us[i], S(i + 1))
+            IN S(1)
+
+\* the sub-state whose cumulative-utility interval contains r * sum
+\* (sub-states outside the top rank carry weight 0 and can never be hit)
+DrawOf(us, r) ==
+    LET point == RMul(r, RSum(us))
+        Cum(i) == RSum(SubSeq(us, 1, i))
+    IN CHOOSE i \in 1 .. Len(us) :
+          /\ us[i] # RZero
+          /\ RGe(point, Cum(i - 1)) /\ ~RGe(point, Cum(i))
+
+RECURSIVE UtilOfNode(_, _, _, _), ChooseSub(_, _, _, _)
+
+\* utility a node reports when it "would be activated" by a request of kind k \in {"change","utilize","randomize"}
+UtilOfNode(s, k, res, e) ==
+    CASE St[s].kind = "S" -> HeadUtil(e, s)
+      [] St[s].kind = "O" ->
+            RMul(HeadUtil(e, s),
+                 RDivI(RSum([i \in 1 .. St[s].width |-> UtilOfNode(Kid(s, i), k, res, e)]), St[s].width))
+      [] St[s].kind = "C" ->
+            RMul(HeadUtil(e, s), UtilOfNode(Kid(s, ChooseSub(s, k, res, e)), k, res, e))
+
+ChooseSub(s, k, res, e) ==
+    LET c       == St[s].compo
+        resumed == IF res[c] # 0 THEN res[c] ELSE 1
+        KidUtils(kk) == [i \in 1 .. St[s].width |-> UtilOfNode(Kid(s, i), kk, res, e)]
+        top     == LET rs == { HeadRank(e, Kid(s, i)) : i \in 1 .. St[s].width }
+                   IN CHOOSE x \in rs : \A y \in rs : x >= y
+        TopUtils(kk) == [i \in 1 .. St[s].width |->
+                            IF HeadRank(e, Kid(s, i)) = top THEN UtilOfNode(Kid(s, i), kk, res, e) ELSE RZero]
+    IN CASE k = "restart"   -> 1
+         [] k = "resume"    -> resumed
+         [] k = "select"    -> HeadSel(e, s)
+         [] k = "utilize"   -> ArgMaxLeft(KidUtils("utilize"))
+         [] k = "randomize" -> DrawOf(TopUtils("randomize"), e.r)
+         [] k = "change"    ->
+              CASE St[s].strat = "Composite"   -> 1
+                [] St[s].strat = "Resumable"   -> resumed
+                [] St[s].strat = "Selectable"  -> HeadSel(e, s)
+                [] St[s].strat = "Utilitarian" -> ArgMaxLeft(KidUtils("change"))
+                [] St[s].strat = "Random"      -> DrawOf(TopUtils("change"), e.r)
+
+---------------------------------------------------------------------------
+(* C02 : the configuration a batch of requests prescribes.                 *)
+(* cfg : pending configuration, one prong per composite region (0 = the    *)
+(* region is not active in it)                                             *)
+
+ComposIn(s)     == { St[t].compo : t \in { u \in Subtree(s) : St[u].kind = "C" } }
+ClearSub(cfg, s) == [c \in Compos |-> IF c \in ComposIn(s) THEN 0 ELSE cfg[c]]
+
+RECURSIVE EnterFresh(_, _, _, _, _), EnterKids(_, _, _, _, _, _, _)
+
+\* activate the sub-tree of s from scratch, every region choosing by the request kind
+EnterFresh(cfg, s, k, res, e) ==
+    CASE St[s].kind = "S" -> cfg
+      [] St[s].kind = "O" -> EnterKids(cfg, s, 1, 0, k, res, e)
+      [] St[s].kind = "C" ->
+            LET p == ChooseSub(s, k, res, e) IN
+            EnterFresh([ClearSub(cfg, s) EXCEPT ![St[s].compo] = p], Kid(s, p), k, res, e)
+
+\* all sub-states of an orthogonal region except `skip`
+EnterKids(cfg, s, i, skip, k, res, e) ==
+    IF i > St[s].width THEN cfg
+    ELSE EnterKids(IF i = skip THEN cfg ELSE EnterFresh(cfg, Kid(s, i), k, res, e), s, i + 1, skip, k, res, e)
+
+\* child of s on the way to d (s a strict ancestor of d)
+RECURSIVE Toward(_, _)
+Toward(s, d) == IF Par(d) = s THEN d ELSE Toward(s, Par(d))
+
+\* nearest composite-style ancestor of a state (0 if none)
+RECURSIVE NearestCompo(_)
+NearestCompo(s) == IF Par(s) = 0 THEN 0 ELSE IF St[Par(s)].kind = "C" THEN Par(s) ELSE NearestCompo(Par(s))
+
+\* A request re-targets the composite regions on the way to its destination d where they point elsewhere, and
+\* freshly resolves - by its kind - everything below the nearest composite ancestor of d on d's side: d's own
+\* sub-tree and, when d sits inside orthogonal regions, the whole orthogonal cluster around it.
+RECURSIVE VisitPath(_, _, _, _, _, _, _)
+VisitPath(cfg, s, wasActive, d, k, res, e) ==
+    IF s = d THEN EnterFresh(cfg, s, k, res, e)                       \* d = root
+    ELSE LET ch == Toward(s, d)  p == St[ch].prong IN
+         IF St[s].kind = "C" THEN
+              LET c == St[s].compo IN
+              IF NearestCompo(d) = s
+              THEN EnterFresh([ClearSub(cfg, s) EXCEPT ![c] = p], ch, k, res, e)
+              ELSE IF wasActive /\ cfg[c] = p THEN VisitPath(cfg, ch, TRUE, d, k, res, e)
+              ELSE VisitPath([ClearSub(cfg, s) EXCEPT ![c] = p], ch, FALSE, d, k, res, e)
+         ELSE IF wasActive THEN VisitPath(cfg, ch, TRUE, d, k, res, e)
+              ELSE VisitPath(EnterKids(cfg, s, 1, p, k, res, e), ch, FALSE, d, k, res, e)
+
+\* one request <<origin, destination, kind, payload>> applied to the pending pair <<cfg, res>>
+ApplyOne(cr, rq, e) ==
+    LET cfg == cr[1]  res == cr[2]  d == rq[2]  k == rq[3] IN
+    IF k = "schedule" THEN
+         IF Par(d) # 0 /\ St[Par(d)].kind = "C" THEN <<cfg, [res EXCEPT ![St[Par(d)].compo] = St[d].prong]>> ELSE cr
+    ELSE <<VisitPath(cfg, 1, TRUE, d, k, res, e), res>>
+
+RECURSIVE ApplyBatch(_, _, _, _)
+ApplyBatch(cr, batch, i, e) == IF i > Len(batch) THEN cr ELSE ApplyBatch(ApplyOne(cr, batch[i], e), batch, i + 1, e)
+
+\* <<act', resS>> : prescribed active prongs, and the resumable marks as left by schedule requests alone
+Prescribed(act, res, batch, e) == ApplyBatch(<<act, res>>, batch, 1, e)
+
+\* what the statement fixes about resumable marks: a region that had an active sub-state and now has a
+\* different one (or none) remembers the old one; a schedule into a region the step did not otherwise
+\* touch sets the mark; a region no callback touched keeps its mark
+ResumableRule(act, res, act2, res2, resS, touched) ==
+    \A c \in Compos :
+        /\ (act[c] # 0 /\ act2[c] # act[c]) => res2[c] = act[c]
+        /\ (c \notin touched) => res2[c] = resS[c]
+
+\* first activation / reset : every region by its declared strategy, nothing resumable
+FreshConfig(e) == EnterFresh([c \in Compos |-> 0], 1, "change", [c \in Compos |-> 0], e)
+
+---------------------------------------------------------------------------
+(* C05 : who receives update / react / query, in which order               *)
+
+RECURSIVE Reach(_, _, _)
+\* states of the active configuration below s, head first (down = TRUE) or sub-states first
+Reach(act, s, down) ==
+    LET me   == IF HasUser(s) THEN <<s>> ELSE <<>>
+        RECURSIVE Kids(_)
+        Kids(i) == IF i > St[s].width THEN <<>> ELSE Reach(act, Kid(s, i), down) \o Kids(i + 1)
+        subs == CASE St[s].kind = "S" -> <<>>
+                  [] St[s].kind = "C" -> Reach(act, Kid(s, act[St[s].compo]), down)
+                  [] St[s].kind = "O" -> Kids(1)
+    IN IF down THEN me \o subs ELSE subs \o me
+
+\* direction of a phase under a reaction order
+GoesDown(phase, order) ==
+    CASE phase \in {"preUpdate", "update"}          -> TRUE
+      [] phase = "postUpdate"                      -> FALSE
+      [] phase \in {"preReact", "react", "query"}  -> order = "TopDown"
+      [] phase = "postReact"                       -> order = "BottomUp"
+
+\* with injected handlers: before the own handler in pre / main phases, after it in post phases; query like react
+WithInjections(seq, phase) ==
+    LET RECURSIVE W(_)
+        W(i) == IF i > Len(seq) THEN <<>>
+                ELSE (IF seq[i] \in Cfg.inj
+                      THEN (IF phase \in {"postUpdate", "postReact"}
+                            THEN << <<seq[i], phase>>, <<seq[i], "i_" \o phase>> >>
+                            ELSE << <<seq[i], "i_" \o phase>>, <<seq[i], phase>> >>)
+                      ELSE << <<seq[i], phase>> >>) \o W(i + 1)
+    IN W(1)
+
+\* delivery list of one phase, cut after the first handler that consumes (consumers: set of <<state, method>>)
+Delivery(act, phase, order, consumers) ==
+    LET full == WithInjections(Reach(act, 1, GoesDown(phase, order)), phase)
+        hits == { i \in 1 .. Len(full) : full[i] \in consumers }
+    IN IF hits = {} THEN full ELSE SubSeq(full, 1, CHOOSE i \in hits : \A j \in hits : i <= j)
+
+---------------------------------------------------------------------------
+(* C13 : pending queries, for a single pending request evaluated by guards *)
+
+ActiveSetOf(act, on) ==
+    LET RECURSIVE A(_)
+        A(s) == IF Par(s) = 0 THEN on
+                ELSE A(Par(s)) /\ (St[Par(s)].kind = "O" \/ act[St[Par(s)].compo] = St[s].prong)
+    IN { s \in States : A(s) }
+
+\* states that stop / start being active when the configuration goes from act to act2,
+\* plus those re-created in place: (computed from lifecycle events by the caller)
+PendingExitRule(act, act2)  == ActiveSetOf(act, TRUE) \ ActiveSetOf(act2, TRUE)
+PendingEnterRule(act, act2) == ActiveSetOf(act2, TRUE) \ ActiveSetOf(act, TRUE)
+
 ===========================================================================
